@@ -102,9 +102,11 @@ def generate(rs: int, tier: str, index: int) -> dict:
         if cast_cell:
             how = CASTS[(index // len(DTYPES) ** 2) % len(CASTS)]
         step["how"] = how
-        shape = ch.choice([(), (3,), (2, 2)])
+        shape = ch.choice([(), (3,), (2, 2), (2, 3)])
         size = int(numpy.prod(shape, dtype=int))
         step["x"] = {"shape": list(shape), "dtype": d1, "flat": _data(ch.sub("x"), d1, size, allow_neg=numpy.dtype(d2).kind not in "ub")}
+        if len(shape) >= 2 and ch.chance(0.4):
+            step["x"]["order"] = "F"
         step["p"] = _poly(ch.sub("p"), d1)
         if numpy.dtype(d2).kind in "ub":  # keep casts value-preserving and order independent
             step["p"]["coefficients"] = [[v if isinstance(v, bool) else ([abs(v[0]), abs(v[1])] if isinstance(v, list) else abs(v)) for v in col] for col in step["p"]["coefficients"]]
@@ -156,7 +158,10 @@ def generate(rs: int, tier: str, index: int) -> dict:
 
 
 def _arr(lit: dict) -> numpy.ndarray:
-    return numpy.array([_num(v) for v in lit["flat"]], dtype=lit["dtype"]).reshape(lit["shape"])
+    arr = numpy.array([_num(v) for v in lit["flat"]], dtype=lit["dtype"]).reshape(lit["shape"])
+    if lit.get("order") == "F" and arr.ndim >= 2:
+        arr = numpy.asfortranarray(arr)  # column-major plain data (a transpose, a Fortran library's output)
+    return arr
 
 
 def _cols(lit: dict) -> List[numpy.ndarray]:
@@ -352,6 +357,8 @@ class Runner:
                 return thunk_scalar, exp, op, where
             if op == "radd_array":
                 arr = numpy.array([_num(v) for v in _data(core.Chooser(self.rs, "radd"), step["d2"], int(numpy.prod(a["shape"], dtype=int)))], dtype=d2).reshape(a["shape"])
+                if arr.ndim >= 2 and step.get("e", 0) % 2:
+                    arr = numpy.asfortranarray(arr)
                 try:
                     rt = numpy.add(numpy.zeros((), d2), numpy.zeros((), d1)).dtype
                     exp = Expect(rt, tuple(a["shape"]), _strip(_m_addsub({frozenset(): arr}, ma, numpy.add, d2, d1, tuple(a["shape"]))))
